@@ -66,15 +66,28 @@ def showChain (dp : Dataplane) (c : Chain) : String :=
 def mkRule (action proto : String) : Policy.Rule :=
   { action := if action = "-" then "" else action, protocol := if proto = "-" then none else some (.name proto) }
 
+/-- `action` / `proto` are `+`-joined lists, one entry per rule -/
+def mkRules (action proto : String) : List Policy.Rule :=
+  List.zipWith mkRule (action.splitOn "+") (proto.splitOn "+")
+
 def protoNumOf : String → Option Nat
   | "tcp" => some 6 | "udp" => some 17 | "icmp" => some 1 | "sctp" => some 132
   | _ => none
 
 def outcomeOf (pi : PolInfo) (proto : Nat) : PolOutcome :=
-  if pi.proto = "-" ∨ protoNumOf pi.proto = some proto then
-    match parseAction (if pi.action = "-" then "" else pi.action) with
-    | some .allow => .allow | some .deny => .deny | some .pass => .pass | _ => .noMatch
-  else .noMatch
+  let rec go : List (String × String) → PolOutcome
+    | [] => .noMatch
+    | (a, p) :: rest =>
+      if p = "-" ∨ protoNumOf p = some proto then
+        match parseAction (if a = "-" then "" else a) with
+        | some .allow => .allow | some .deny => .deny | some .pass => .pass | _ => go rest
+      else go rest
+  go (List.zip (pi.action.splitOn "+") (pi.proto.splitOn "+"))
+
+/-- the (empty) failsafe chains, added once -/
+def failsafes (st : St) : List Chain :=
+  if st.chains.any (·.name == "cali-failsafe-in") then []
+  else [{ name := "cali-failsafe-in", rules := [] }, { name := "cali-failsafe-out", rules := [] }]
 
 def showRes : Result → String
   | .verdict .accept m => s!"accept mark={markHex m}"
@@ -93,9 +106,9 @@ def step (st : St) (line : String) : St × String :=
     let staged := kind = "s"
     let pi : PolInfo := { inChain := inC, outChain := outC, staged := staged, action := action, proto := proto }
     if staged then ({ st with pols := pi :: st.pols }, "staged") else
-    let r := mkRule action proto
-    match protoRulesToRules st.cfg { owner := 'P', dir := 'I', id := id } false [r] (hexToString cIn),
-          protoRulesToRules st.cfg { owner := 'P', dir := 'E', id := id } false [r] (hexToString cOut) with
+    let r := mkRules action proto
+    match protoRulesToRules st.cfg { owner := 'P', dir := 'I', id := id } false r (hexToString cIn),
+          protoRulesToRules st.cfg { owner := 'P', dir := 'E', id := id } false r (hexToString cOut) with
     | some a, some o =>
       let ci : Chain := { name := inC, rules := a }
       let co : Chain := { name := outC, rules := o }
@@ -103,9 +116,9 @@ def step (st : St) (line : String) : St × String :=
     | _, _ => (st, "panic")
   | ["prof", inC, outC, action, proto, name, cIn, cOut] =>
     let pi : PolInfo := { inChain := inC, outChain := outC, staged := false, action := action, proto := proto }
-    let r := mkRule action proto
-    match protoRulesToRules st.cfg { owner := 'R', dir := 'I', id := name } false [r] (hexToString cIn),
-          protoRulesToRules st.cfg { owner := 'R', dir := 'E', id := name } false [r] (hexToString cOut) with
+    let r := mkRules action proto
+    match protoRulesToRules st.cfg { owner := 'R', dir := 'I', id := name } false r (hexToString cIn),
+          protoRulesToRules st.cfg { owner := 'R', dir := 'E', id := name } false r (hexToString cOut) with
     | some a, some o =>
       let ci : Chain := { name := inC, rules := a }
       let co : Chain := { name := outC, rules := o }
@@ -125,6 +138,36 @@ def step (st : St) (line : String) : St × String :=
       ({ st with chains := st.chains ++ [cTo, cFrom], eps := (tw, ti, pin) :: (fw, to, pout) :: st.eps },
        showChain st.dp cTo ++ " || " ++ showChain st.dp cFrom)
     | _, _ => (st, "bad-op")
+  | ["hep", th, fh, thfw, fhfw, tIn, tOut, fIn, fOut, pIn, pOut] =>
+    match parseTiers tIn, parseTiers tOut, parseTiers fIn, parseTiers fOut with
+    | some ti, some to, some fi, some fo =>
+      let pin := if pIn = "-" then [] else pIn.splitOn ","
+      let pout := if pOut = "-" then [] else pOut.splitOn ","
+      let e : EpCfg := { allowIsReturn := st.allowRet, disableCtInvalid := st.noCtInvalid }
+      let cs := [
+        endpointChain st.cfg { e with dir := 'E', failsafe := "cali-failsafe-out" } th to pout,
+        endpointChain st.cfg { e with dir := 'I', failsafe := "cali-failsafe-in" } fh ti pin,
+        endpointChain st.cfg { e with dir := 'E', chainType := .forward } thfw fo pout,
+        endpointChain st.cfg { e with dir := 'I', chainType := .forward } fhfw fi pin ]
+      ({ st with chains := st.chains ++ failsafes st ++ cs, eps := (th, to, pout) :: (fh, ti, pin) :: st.eps },
+       " || ".intercalate (cs.map (showChain st.dp)))
+    | _, _, _, _ => (st, "bad-op")
+  | ["hepraw", th, fh, tIn, tOut] =>
+    match parseTiers tIn, parseTiers tOut with
+    | some ti, some to =>
+      let e : EpCfg := { chainType := .untracked, disableCtInvalid := st.noCtInvalid }
+      let cs := [
+        endpointChain st.cfg { e with dir := 'E', failsafe := "cali-failsafe-out" } th to [],
+        endpointChain st.cfg { e with dir := 'I', failsafe := "cali-failsafe-in" } fh ti [] ]
+      ({ st with chains := st.chains ++ failsafes st ++ cs }, " || ".intercalate (cs.map (showChain st.dp)))
+    | _, _ => (st, "bad-op")
+  | ["hepmangle", fh, tIn, _tOut] =>
+    match parseTiers tIn with
+    | some ti =>
+      let e : EpCfg := { chainType := .preDNAT, disableCtInvalid := st.noCtInvalid, dir := 'I', failsafe := "cali-failsafe-in" }
+      let c := endpointChain st.cfg e fh ti []
+      ({ st with chains := st.chains ++ failsafes st ++ [c] }, showChain st.dp c)
+    | none => (st, "bad-op")
   | ["eval", chain, proto, ct] =>
     match proto.toNat? with
     | none => (st, "bad-op")
